@@ -994,6 +994,9 @@ func callBuiltin(caller *frame, callpos token.Pos, fn *ssa.Builtin, args []value
 		if caller.i.ex != nil && caller.i.ex.StoreMon != nil {
 			caller.i.ex.StoreMon.onCopy(caller, args[0].([]value))
 		}
+		if caller.i.ex != nil && caller.i.ex.Guard != nil && len(args[0].([]value)) > 0 && len(src.([]value)) > 0 {
+			caller.i.ex.Guard.onSlice(caller, args[0].([]value), 0, "copy")
+		}
 		return copy(args[0].([]value), src.([]value))
 
 	case "clear": // clear(map) / clear(slice)
@@ -1031,6 +1034,9 @@ func callBuiltin(caller *frame, callpos token.Pos, fn *ssa.Builtin, args []value
 	case "delete": // delete(map[K]value, K)
 		if caller.i.ex != nil && caller.i.ex.StoreMon != nil {
 			caller.i.ex.StoreMon.onMapUpdate(caller, nil, args[0])
+		}
+		if caller.i.ex != nil && caller.i.ex.Guard != nil {
+			caller.i.ex.Guard.onMapUpdate(caller, args[0])
 		}
 		switch m := args[0].(type) {
 		case *omap:
@@ -1705,6 +1711,9 @@ func (i *interpreter) indexValue(elems []value, idx value) value {
 }
 
 func (i *interpreter) appendMon(fr *frame, dst, src []value) []value {
+	if i.ex != nil && i.ex.Guard != nil && len(src) > 0 && len(dst)+len(src) <= cap(dst) {
+		i.ex.Guard.onSlice(fr, dst, len(dst), "append into spare capacity")
+	}
 	if i.ex != nil && i.ex.StoreMon != nil && len(src) > 0 && len(dst)+len(src) <= cap(dst) {
 		i.ex.StoreMon.onAppendInPlace(fr, dst)
 	}
